@@ -21,15 +21,15 @@ import (
 )
 
 type fsEvent struct {
-	Kind string `json:"kind"` // create write truncate rename unlink rmdir mkdir fsync ack begin
-	Path string `json:"path,omitempty"`
-	To   string `json:"to,omitempty"`
-	Off  int64  `json:"off,omitempty"`
-	Data []byte `json:"data,omitempty"`
-	Len  int64  `json:"len,omitempty"`
-	Op   int    `json:"op,omitempty"` // for ack/begin markers
-	Trunc bool  `json:"trunc,omitempty"`
-	Rel   bool  `json:"rel,omitempty"` // unlink relative to a directory descriptor: part of a RemoveAll, whose order is the listing order
+	Kind  string `json:"kind"` // create write truncate rename unlink rmdir mkdir fsync ack begin
+	Path  string `json:"path,omitempty"`
+	To    string `json:"to,omitempty"`
+	Off   int64  `json:"off,omitempty"`
+	Data  []byte `json:"data,omitempty"`
+	Len   int64  `json:"len,omitempty"`
+	Op    int    `json:"op,omitempty"` // for ack/begin markers
+	Trunc bool   `json:"trunc,omitempty"`
+	Rel   bool   `json:"rel,omitempty"` // unlink relative to a directory descriptor: part of a RemoveAll, whose order is the listing order
 }
 
 func (e fsEvent) mutating() bool {
